@@ -472,6 +472,11 @@ def check_generic(prop, tier, cfgs, n_quick, n_thorough, sigfun, stages, level="
                 sp = Program(len(progs), ss, root, label)
                 sp.port = None
                 progs.append(sp)
+        if prop in ("C01", "C02", "C03", "C09"):
+            for label, ss in gen_mini.xml_named_family():
+                xp = Program(len(progs), ss, root, label)
+                xp.port = None
+                progs.append(xp)
         if prop in ("C01", "C02", "C09", "C10"):
             for label, ss in gen_mini.inner_xmlns_family():
                 ip = Program(len(progs), ss, root, label)
